@@ -296,6 +296,9 @@ def run(ctx):
         for blk, st in drops:
             if any(h.dominates(t_, blk) for t_ in consume_targets):
                 continue
+            # dropped together with the batch it belongs to
+            if any(h.dominates(k.block, blk) and any(k.block in natural_loop(h, hd) for hd in loop_headers(h)) for k in h.calls("pgcat::client::Client::reset_buffered_state")):
+                continue
             # the initialisation before the loops
             if not any(blk in natural_loop(h, hd) for hd in loop_headers(h)):
                 init_done = True
@@ -359,6 +362,32 @@ def run(ctx):
                      "pending %s removes the batch's entries from the client's prepared-statement map before clearing the batch" % variant,
                      why + ": `Parse(s1, denied) Sync` then `Bind(s1) Execute Sync` makes ensure_prepared_statement_is_on_server send and run the denied statement",
                      "bb%d of handle" % sw.block)
+
+    # ... and so is any other discard of a buffered batch (D26): the statements the batch prepared and a verdict pending on it go with it.
+    # A batch that was discarded because its Sync could not get a server must not leave an intercepted/denied statement remembered.
+    if h:
+        po2 = set(h.locals_named("plugin_output"))
+        none_drops = []
+        for blk, i, st in h.assigns():
+            if st["lhs"]["l"] in po2 and not st["lhs"]["p"]:
+                if (st["rv"]["k"] == "agg" and st["rv"].get("variant") == "None") or (st["rv"]["k"] == "use" and any(o.kind == "agg" and o.extra.get("variant") == "None" for o in origins(h, st["rv"]["op"]))):
+                    none_drops.append(blk)
+        nres = 0
+        for c in h.calls("pgcat::client::Client::reset_buffered_state"):
+            nres += 1
+            # events before the discard, inside the same iteration
+            pre = [k for k in h.calls("pgcat::client::Client::forget_buffered_prepared_statements") if h.dominates(k.block, c.block)]
+            inlined = False
+            if not pre:
+                ev = _events(F, h, set(h.backreach([c.block], avoid_blocks=heads)) & set(h.reach([hd for hd in heads] or [0], avoid_blocks=[])))
+                inlined = "forget" in ev
+            after = h.uncrossed_path([c.target] if c.target is not None else [], heads, blocks=none_drops) if none_drops else [0]
+            dropped_before = any(h.dominates(b_, c.block) for b_ in none_drops if any(b_ in natural_loop(h, hd) for hd in heads))
+            r6.check((bool(pre) or inlined) and (after is None or dropped_before), "discard-forgets-and-drops-verdict@%s" % c.span.split(":")[1],
+                     "the discard of the buffered batch at client.rs:%s forgets the batch's statements and drops the pending verdict" % c.span.split(":")[1],
+                     "the buffered batch is discarded at client.rs:%s %s: an intercepted (or denied) batch whose Sync could not get a server leaves its named statement remembered and its verdict pending - the next batch is answered with the stale verdict and the one after that forwards the statement"
+                     % (c.span.split(":")[1], "without forgetting the statements it prepared" if not (pre or inlined) else "but the pending verdict survives it"), c.where())
+        r6.check(nres >= 4, "discard-sites", "%d sites discard the buffered batch" % nres, "expected >= 4 reset_buffered_state sites in handle, found %d" % nres)
 
 
 def _events(F, body, region, depth=3, _seen=None):
